@@ -173,7 +173,7 @@ def guard_holds(ctx, name):
     return cache[name]
 
 
-def run_panic_inventory(ctx, rid, entries, text, ctx_sensitive=False, kinds=None, fn_floor=0, site_floor=0):
+def run_panic_inventory(ctx, rid, entries, text, ctx_sensitive=False, kinds=None, fn_floor=0, site_floor=0, declared_invariants_undecided=False):
     """A7. Every reachable panic site must be discharged automatically (folded condition / bound)
     or carry a reviewed guard argument in tables/panic_sites.json (exact key)."""
     from ..callgraph import CallGraph
@@ -209,6 +209,12 @@ def run_panic_inventory(ctx, rid, entries, text, ctx_sensitive=False, kinds=None
                 ctx.ob(rid, s.key, True, "", ctx.where(f, s.line), sample={"site": s.key, "discharged": "reviewed: " + r["why"] + (" [guard %s verified]" % g if g else "")})
                 continue
         chain = cg.chain(parent, s.fn)
+        if declared_invariants_undecided and ((s.kind == "assert" and s.detail == "bounds") or (s.kind == "call" and s.detail.startswith("core::panicking::"))):
+            # an index whose range this analysis cannot bound, or an assertion / unreachable!() the author declared:
+            # whether it can fire depends on values; no verdict (reported, not an alarm). Calls of panicking library
+            # functions (unwrap, expect, Duration arithmetic, slicing, division) stay violations.
+            ctx.lost(rid, "%s (new %s in %s: cannot be shown unreachable, not assumed reachable)" % (s.key, "bounds check " + s.info if s.kind == "assert" else "assertion / explicit panic", f["display"]))
+            continue
         ctx.ob(rid, s.key, False,
                "reachable panic site without a guard argument: %s %s %s in %s; reached via %s"
                % (s.kind, s.detail.rsplit("::", 2)[-1] if s.kind == "call" else s.detail, ("(" + s.info + ")") if s.info else "", f["display"],
